@@ -25,13 +25,15 @@ Open Scope Z_scope.
 (* PollInterval(i8)                                                    *)
 (* ------------------------------------------------------------------ *)
 
-Definition i8 (z : Z) : Z := to_signed 8 z.           (* wrapping i8 arithmetic (release) *)
+Definition i8 (z : Z) : Z := to_signed 8 z.           (* u8 as i8 *)
 Definition POLL_NEVER : Z := 127.                      (* PollInterval::NEVER = i8::MAX *)
 
 Record cfg := mkCfg { c_min : Z; c_max : Z }.          (* SourceConfig.poll_interval_limits *)
 
-Definition poll_inc (c : cfg) (p : Z) : Z := Z.min (i8 (p + 1)) (c_max c).
-Definition poll_dec (c : cfg) (p : Z) : Z := Z.max (i8 (p - 1)) (c_min c).
+(* inc / dec: saturating_add(1) / saturating_sub(1) on the i8, then the clamp *)
+Definition sat_i8 (z : Z) : Z := Z.max (-128) (Z.min 127 z).
+Definition poll_inc (c : cfg) (p : Z) : Z := Z.min (sat_i8 (p + 1)) (c_max c).
+Definition poll_dec (c : cfg) (p : Z) : Z := Z.max (sat_i8 (p - 1)) (c_min c).
 
 (* as_system_duration: whole seconds, exponent clamped to 0..31 *)
 Definition system_duration_secs (p : Z) : Z :=
